@@ -125,7 +125,9 @@ def lzCheck (init : String) (evs : List String) : Option String := do
   let events ← evs.mapM parseEvent
   match Linz.linearizable s0 events with
   | some w => pure s!"lin {showNatList w}"
-  | none => pure (if Linz.searchLoose (events.length + 1) s0 events then "notlin cleanup-deleted-live-entry" else "notlin")
+  | none =>
+    if Linz.inconclusive s0 events then pure "inconclusive"
+    else pure (if Linz.searchLoose (events.length + 1) s0 events then "notlin cleanup-deleted-live-entry" else "notlin")
 
 /-- `fp racy`: the unprotected conflicting pairs the footprint table predicts, as `loc:signature`. -/
 def fpRacy : String :=
